@@ -51,9 +51,13 @@ class ConcreteEngine:
 
     # inputs
     def rational(self, name, flav='dec'):
-        if name not in self.model or self.model[name] is None:
+        if name not in self.model:
+            # input created after the point the model was taken: any value will do
+            v = Fraction(1)
+        elif self.model[name] is None:
             raise Unrepresentable(name)
-        v = Fraction(self.model[name])
+        else:
+            v = Fraction(self.model[name])
         if flav == 'frac':
             return v
         if flav == 'int':
@@ -66,9 +70,12 @@ class ConcreteEngine:
             raise Unrepresentable(name) from None
 
     def integer(self, name, lo=None, hi=None):
-        if name not in self.model or self.model[name] is None:
+        if name not in self.model:
+            v = Fraction(lo if lo is not None else (hi if hi is not None else 1))
+        elif self.model[name] is None:
             raise Unrepresentable(name)
-        v = Fraction(self.model[name])
+        else:
+            v = Fraction(self.model[name])
         if v.denominator != 1:
             raise Unrepresentable(name)
         return int(v)
